@@ -13,7 +13,7 @@
 (* what the Go code computes for grid values (DESIGN.md 3.3).  Time is in    *)
 (* ticks (1 tick = 1 day from 2030-01-01T00:00:00Z).                        *)
 (***************************************************************************)
-EXTENDS Integers, Sequences, FiniteSets, TLC
+EXTENDS Integers, Sequences, FiniteSets, TLC, LifecycleOps
 
 CONSTANTS
   UserSeq,   \* users as a sequence, in the order of their bech32 addresses
